@@ -167,7 +167,7 @@ theorem deliver_recv_ok (s : State) (p : Packet) (π : Proof) (h : Nat) (t : Str
         rcases Core.recvPacket_cases H s.core p π h with ⟨hrok, _⟩ | ⟨_, e, hcls, he⟩
         · exact hrok
         · rw [he] at hh
-          rcases hcls with rfl | rfl | rfl <;> simp at hh
+          rcases hcls with rfl | rfl | rfl | rfl <;> simp at hh
 
 /-- a successful `MsgAcknowledgement` passed every pre-write check of `AcknowledgePacket` -/
 theorem deliver_ack_ok (s : State) (p : Packet) (a : Data) (π : Proof) (h : Nat)
